@@ -182,7 +182,7 @@ class C12(Check):
             'position) in a v2 container, and of length <=1/<=2 in a v3 container together with all sequences of <=2 log '
             'records over 5 (tid,pid,process) shapes; x filter configurations: filter_tid in {None,0,1,2,9} x filter_class in '
             'all lists of <=2 over {1,3,4,7,0xff} (duplicates, tuple type) x filter_subclass in all lists of <=2 over '
-            '{0x40c,0x40d,0x301,0x140} (v2: full product for the tid/class/subclass filters; v3: class/subclass reduced to 6x4, '
+            '{0x40c,0x40d,0x301,0x140} (v2: full product for the tid/class/subclass filters on streams of <=2 records, lists of <=1 entries plus 6 two-entry / tuple-typed ones on streams of 3; v3: class/subclass reduced to 6x4, '
             'process filter in {None,name,pid-string,other}). Plus the command-line tool (kevents --tid/-cf/-sf in decimal and 0x form; logs --tid/--process) against the same reference. Plus request histories: all sequences of 3 filter configurations (7 kinds) applied in turn to ONE parser object, optionally after a traces() request, or with every listing requested first and read only after a traces() and a callstacks() request ran to their end on the same object, on 3 streams - each listing must equal the reference for its own configuration. Oracle: listing == reference comprehension over the independent '
             'decode; logs never among events and vice versa. non-trivial = the event filter removes at least one and keeps at least '
             'one record. states = distinct filter configurations; transitions = parses.')
@@ -323,10 +323,13 @@ class C12(Check):
         kind, streams = desc[0], desc[1]
         CL, SL = class_lists(), subclass_lists()
         if kind == 'v2':
+            # streams of length 3 meet the lists of <=1 entries plus the tuple-typed / two-entry specials; shorter ones the full product
+            CLr = [c for c in CL if len(c) <= 1] + [(4,), (1, 7), [4, 4], [7, 4]]
+            SLr = [x for x in SL if len(x) <= 1] + [(0x40c,), [0x40c, 0x301]]
             for stream in streams:
                 for T in TID_FILTERS:
-                    for C in CL:
-                        for S in SL:
+                    for C in (CL if len(stream) < 3 else CLr):
+                        for S in (SL if len(stream) < 3 else SLr):
                             self._one(acc, 'v2', stream, (), T, C, S, None)
         else:
             CL3 = [[], [4], [7, 3], (1,), [0xff, 4], [3]]
@@ -336,6 +339,8 @@ class C12(Check):
                 for logs in logseqs:
                     if self.tier == 'quick' and stream and len(logs) > 1:
                         continue      # quick: two-record log sequences only with an empty event stream
+                    if len(stream) >= 2 and len(logs) > 1:
+                        continue      # thorough: two-record log sequences with event streams of <=1 record
                     for T in TID_FILTERS:
                         for P in PROC_FILTERS:
                             for C in CL3:
